@@ -8,7 +8,10 @@ Open Scope R_scope.
 
    [blocks] = (a_1 ... a_n): a_i lineages subtend i samples.  [upd] silently does
    nothing out of range, so the identity needs the incremented position to exist:
-   sum_i i * a_i <= n ([wf_blocks]); in the real code sum_i i * a_i = n. *)
+   sum_i i * a_i <= n ([wf_blocks]); in the real code sum_i i * a_i = n.
+   Without [wf_blocks] the statement is false: for blocks = [2;2] (computed with OpsQ)
+   the Kingman outcome sums are 1 (k=2) and 5 (k=3) against rates 6 and 0, and the
+   Beta(3/2) sums are 5/8, 25/8, 1/2, 1/8 (k=2..5) against 15/4, 1/2, 1/8, 0. *)
 
 Definition wf_blocks (blocks : list nat) : Prop :=
   (sum_nat (map (fun ci => fst ci * S (snd ci)) (combine blocks (seq 0 (length blocks)))) <= length blocks)%nat.
@@ -470,3 +473,414 @@ Proof.
   - rewrite binom_gt by lia. simpl. ring.
   - reflexivity.
 Qed.
+
+(* ------------------------------------------------------------------ *)
+(* Dirac                                                              *)
+(* ------------------------------------------------------------------ *)
+
+Lemma opow_pow : forall x n, opow OpsR x n = x ^ n.
+Proof.
+  intros x n. induction n as [|n IH]; simpl; [reflexivity | rewrite IH; reflexivity].
+Qed.
+
+Lemma binom_pmf_R :
+  forall psi n k,
+    binom_pmf OpsR psi n k = IZR (binom n k) * psi ^ k * (1 - psi) ^ (n - k).
+Proof.
+  intros psi n k. unfold binom_pmf.
+  destruct (Nat.ltb n k) eqn:E; bools.
+  - rewrite binom_gt by lia. simpl. ring.
+  - rewrite !opow_pow. unfold osub. simpl.
+    replace (1 + - psi) with (1 - psi) by ring. reflexivity.
+Qed.
+
+Definition pmfprod (psi : R) (bs ks : list nat) : R :=
+  oprod OpsR (map (fun bk => binom_pmf OpsR psi (fst bk) (snd bk)) (combine bs ks)).
+
+Lemma pmfprod_cons :
+  forall psi b bs k ks,
+    pmfprod psi (b :: bs) (k :: ks) = binom_pmf OpsR psi b k * pmfprod psi bs ks.
+Proof. reflexivity. Qed.
+
+Lemma get_rate_bc_dirac :
+  forall psi c s n bs ks,
+    get_rate_bc OpsR (Dirac psi c s) n bs ks
+    = kingman_rate_bc OpsR bs ks
+      + (if Nat.ltb (sum_nat bs) n
+         then pmfprod psi bs ks * binom_pmf OpsR psi (n - sum_nat bs) 0
+         else pmfprod psi bs ks) * c.
+Proof. reflexivity. Qed.
+
+Lemma dirac_tail :
+  forall psi P sb n,
+    (if Nat.ltb sb n then P * binom_pmf OpsR psi (n - sb) 0 else P) = P * (1 - psi) ^ (n - sb).
+Proof.
+  intros psi P sb n. destruct (Nat.ltb sb n) eqn:E; bools.
+  - rewrite binom_pmf_R, binom_0_r, Nat.sub_0_r. simpl. ring.
+  - replace (n - sb)%nat with 0%nat by lia. simpl. ring.
+Qed.
+
+Lemma sum_filter_pos_le :
+  forall blocks comb, (sum_nat (filter_pos blocks comb) <= sum_nat blocks)%nat.
+Proof.
+  induction blocks as [|b bs IH]; intros [|c cs].
+  - apply le_n.
+  - apply le_n.
+  - rewrite filter_pos_nil_r. apply Nat.le_0_l.
+  - rewrite filter_pos_cons. specialize (IH cs).
+    destruct (Nat.ltb 0 c); rewrite !sum_nat_cons; lia.
+Qed.
+
+Lemma pmfprod_filter_pos :
+  forall psi comb blocks, Forall2 le comb blocks ->
+  forall z r,
+    (z + sum_nat (filter_pos blocks comb) = sum_nat blocks)%nat ->
+    (r + sum_nat comb = sum_nat blocks)%nat ->
+    pmfprod psi (filter_pos blocks comb) (filter_pos comb comb) * (1 - psi) ^ z
+    = IZR (prodb blocks comb) * psi ^ (sum_nat comb) * (1 - psi) ^ r.
+Proof.
+  intros psi comb blocks H. induction H as [|c b cs bs Hcb H IH]; intros z r Hz Hr.
+  - simpl in Hz, Hr. replace z with 0%nat by lia. replace r with 0%nat by lia.
+    unfold pmfprod, prodb. simpl. ring.
+  - pose proof (F2le_sum _ _ H) as Hs.
+    pose proof (sum_filter_pos_le bs cs) as Hf.
+    rewrite !filter_pos_cons in *. rewrite prodb_cons, mult_IZR.
+    rewrite !sum_nat_cons in Hr. rewrite (sum_nat_cons c cs).
+    destruct (Nat.ltb 0 c) eqn:E; bools.
+    + rewrite !sum_nat_cons in Hz.
+      rewrite pmfprod_cons, binom_pmf_R.
+      replace r with ((b - c) + (r - (b - c)))%nat by lia.
+      rewrite !pow_add.
+      specialize (IH z (r - (b - c))%nat).
+      transitivity (IZR (binom b c) * psi ^ c * (1 - psi) ^ (b - c)
+                    * (pmfprod psi (filter_pos bs cs) (filter_pos cs cs) * (1 - psi) ^ z));
+        [ring|].
+      rewrite IH by lia. ring.
+    + rewrite sum_nat_cons in Hz.
+      assert (c = 0%nat) by lia. subst c. rewrite binom_0_r.
+      replace r with (b + (r - b))%nat by lia.
+      replace z with (b + (z - b))%nat by lia.
+      rewrite !pow_add.
+      specialize (IH (z - b) (r - b))%nat.
+      transitivity ((1 - psi) ^ b
+                    * (pmfprod psi (filter_pos bs cs) (filter_pos cs cs) * (1 - psi) ^ (z - b)));
+        [ring|].
+      rewrite IH by lia. simpl. ring.
+Qed.
+
+Lemma of_nat_mul_pred : forall b, Z.of_nat (b * (b - 1)) = (Z.of_nat b * (Z.of_nat b - 1))%Z.
+Proof.
+  intros [|b].
+  - reflexivity.
+  - rewrite Nat.sub_succ, Nat.sub_0_r. lia.
+Qed.
+
+Lemma kingman_rate_2 : forall b, kingman_rate OpsR b 2 = IZR (binom b 2).
+Proof.
+  intros b. unfold kingman_rate, odiv, oofN. simpl.
+  rewrite of_nat_mul_pred, <- binom_2_r, mult_IZR. field.
+Qed.
+
+Lemma kingman_rate_not2 : forall b k, k <> 2%nat -> kingman_rate OpsR b k = 0.
+Proof.
+  intros b k H. unfold kingman_rate. destruct (Nat.eqb k 2) eqn:E; bools; [lia | reflexivity].
+Qed.
+
+Lemma kingman_rate_bc_pos :
+  forall bs ks, length bs = length ks -> Forall (fun x => 0 < x)%nat ks ->
+    kingman_rate_bc OpsR bs ks = if Nat.eqb (sum_nat ks) 2 then IZR (prodb bs ks) else 0.
+Proof.
+  intros bs ks Hl Hp.
+  destruct bs as [|b0 [|b1 [|b2 bs]]]; destruct ks as [|k0 [|k1 [|k2 ks]]];
+    simpl in Hl; try discriminate Hl.
+  - reflexivity.
+  - change (kingman_rate_bc OpsR [b0] [k0]) with (kingman_rate OpsR b0 k0).
+    rewrite sum_nat_cons. change (sum_nat []) with 0%nat.
+    destruct (Nat.eqb (k0 + 0) 2) eqn:E; bools.
+    + replace k0 with 2%nat by lia. rewrite kingman_rate_2.
+      unfold prodb. simpl combine. simpl map. simpl fold_right. f_equal. ring.
+    + apply kingman_rate_not2. lia.
+  - inversion Hp as [|x l Hk0 Hp1]; subst. inversion Hp1 as [|x l Hk1 Hp2]; subst.
+    rewrite !sum_nat_cons. change (sum_nat []) with 0%nat.
+    destruct (Nat.eqb (k0 + (k1 + 0)) 2) eqn:E; bools.
+    + assert (k0 = 1%nat) by lia. assert (k1 = 1%nat) by lia. subst k0 k1.
+      change (kingman_rate_bc OpsR [b0; b1] [1%nat; 1%nat]) with (IZR (Z.of_nat (b0 * b1))).
+      unfold prodb. simpl combine. simpl map. simpl fold_right.
+      rewrite !binom_1_r. f_equal. lia.
+    + destruct k0 as [|[|k0]]; try lia; destruct k1 as [|[|k1]]; try lia; reflexivity.
+  - inversion Hp as [|x l Hk0 Hp1]; subst. inversion Hp1 as [|x l Hk1 Hp2]; subst.
+    inversion Hp2 as [|x l Hk2 Hp3]; subst.
+    rewrite !sum_nat_cons.
+    destruct (Nat.eqb (k0 + (k1 + (k2 + sum_nat ks))) 2) eqn:E; bools; [lia|].
+    reflexivity.
+Qed.
+
+Lemma filter_pos_self_pos : forall comb, Forall (fun x => 0 < x)%nat (filter_pos comb comb).
+Proof.
+  induction comb as [|c cs IH].
+  - constructor.
+  - rewrite filter_pos_cons. destruct (Nat.ltb 0 c) eqn:E; bools; [constructor|]; assumption.
+Qed.
+
+Lemma filter_pos_length :
+  forall blocks comb, length blocks = length comb ->
+    length (filter_pos blocks comb) = length (filter_pos comb comb).
+Proof.
+  induction blocks as [|b bs IH]; intros [|c cs] H; simpl in H; try discriminate H.
+  - reflexivity.
+  - rewrite !filter_pos_cons. destruct (Nat.ltb 0 c); simpl; rewrite (IH cs) by lia; reflexivity.
+Qed.
+
+Lemma Rsum_map_zero : forall {A} (l : list A), Rsum (map (fun _ => 0) l) = 0.
+Proof.
+  intros A l. induction l as [|x l IH]; simpl; [reflexivity | rewrite IH; ring].
+Qed.
+
+Theorem block_outcomes_sum_dirac :
+  forall (psi c : R) (s : bool) (blocks : list nat) (k : nat),
+    wf_blocks blocks -> (2 <= length blocks)%nat -> (2 <= k)%nat ->
+    outcome_rate_sum (Dirac psi c s) blocks k
+    = get_rate_bk OpsR (Dirac psi c s) (sum_nat blocks) k.
+Proof.
+  intros psi c s blocks k Hwf Hlen Hk. unfold outcome_rate_sum.
+  rewrite coalesce_mm_dirac by assumption.
+  fold (Rsum (map snd (filter (fun o => Nat.eqb (sum_nat (fst o) + k) (sum_nat blocks + 1))
+                              (mm_coalesce_bc OpsR (Dirac psi c s) blocks)))).
+  rewrite mm_outcome_sum by (assumption || lia).
+  set (n := sum_nat blocks).
+  rewrite (map_ext_in _
+    (fun comb => (if Nat.eqb (sum_nat comb) k then IZR (prodb blocks comb) else 0)
+                 * (if Nat.eqb k 2 then 1 else 0)
+                 + (if Nat.eqb (sum_nat comb) k then IZR (prodb blocks comb) else 0)
+                   * (psi ^ k * (1 - psi) ^ (n - k) * c))).
+  2:{ intros comb Hin. apply all_combs_le in Hin.
+      destruct (Nat.eqb (sum_nat comb) k) eqn:E; bools; [|ring].
+      pose proof (F2le_sum _ _ Hin) as Hs.
+      pose proof (sum_filter_pos_le blocks comb) as Hf.
+      rewrite get_rate_bc_dirac, dirac_tail.
+      rewrite kingman_rate_bc_pos, sum_filter_pos, prodb_filter_pos, E.
+      2:{ apply filter_pos_length. symmetry. apply (F2le_length _ _ Hin). }
+      2:{ apply filter_pos_self_pos. }
+      rewrite (pmfprod_filter_pos psi comb blocks Hin _ (n - k)) by (unfold n; lia).
+      rewrite E. destruct (Nat.eqb k 2); ring. }
+  rewrite Rsum_map_plus, !Rsum_map_mult, vandermonde_general_R.
+  fold n. unfold get_rate_bk.
+  rewrite binom_pmf_R.
+  change (oadd OpsR) with Rplus. change (omul OpsR) with Rmult.
+  destruct (Nat.eqb k 2) eqn:E; bools.
+  - subst k. rewrite kingman_rate_2. ring.
+  - rewrite kingman_rate_not2 by assumption. ring.
+Qed.
+
+(* ------------------------------------------------------------------ *)
+(* Kingman                                                            *)
+(* ------------------------------------------------------------------ *)
+
+Definition kcell (blocks : list nat) (i j : nat) : list (list nat * R) :=
+  if Nat.eqb i j then
+    if Nat.ltb 1 (nth i blocks 0%nat) then
+      [(upd (upd blocks i (fun x => (x - 2)%nat)) (2 * (i + 1) - 1) S,
+        kingman_rate_bc OpsR [nth i blocks 0%nat] [2%nat])]
+    else []
+  else if Nat.ltb j i then
+    if andb (Nat.ltb 0 (nth i blocks 0%nat)) (Nat.ltb 0 (nth j blocks 0%nat)) then
+      [(upd (upd (upd blocks i pred) j pred) (i + j + 1) S,
+        kingman_rate_bc OpsR [nth i blocks 0%nat; nth j blocks 0%nat] [1%nat; 1%nat])]
+    else []
+  else [].
+
+Lemma kingman_coalesce_bc_cells :
+  forall blocks,
+    kingman_coalesce_bc OpsR blocks
+    = flat_map (fun i => flat_map (fun j => kcell blocks i j) (seq 0 (length blocks)))
+               (seq 0 (length blocks)).
+Proof. reflexivity. Qed.
+
+Lemma dotw_ge1 :
+  forall l i off, (i < length l)%nat -> (nth i l 0 * (off + i + 1) <= dotw off l)%nat.
+Proof.
+  induction l as [|a l IH]; intros [|i] off H; simpl in H; try lia.
+  - rewrite dotw_cons. simpl nth. replace (off + 0 + 1)%nat with (S off) by lia. lia.
+  - rewrite dotw_cons. simpl nth. specialize (IH i (S off)).
+    replace (S off + i + 1)%nat with (off + S i + 1)%nat in IH by lia. lia.
+Qed.
+
+Lemma dotw_ge2 :
+  forall l i j off, (j < i)%nat -> (i < length l)%nat ->
+    (nth i l 0 * (off + i + 1) + nth j l 0 * (off + j + 1) <= dotw off l)%nat.
+Proof.
+  induction l as [|a l IH]; intros [|i] [|j] off Hji Hi; simpl in Hi; try lia.
+  - rewrite dotw_cons. simpl nth. pose proof (dotw_ge1 l i (S off)) as H1.
+    replace (S off + i + 1)%nat with (off + S i + 1)%nat in H1 by lia.
+    replace (off + 0 + 1)%nat with (S off) by lia. lia.
+  - rewrite dotw_cons. simpl nth. specialize (IH i j (S off)).
+    replace (S off + i + 1)%nat with (off + S i + 1)%nat in IH by lia.
+    replace (S off + j + 1)%nat with (off + S j + 1)%nat in IH by lia. lia.
+Qed.
+
+Lemma nth_le_sum : forall l i, (nth i l 0 <= sum_nat l)%nat.
+Proof.
+  induction l as [|a l IH]; intros [|i]; simpl nth; rewrite ?sum_nat_cons.
+  - apply Nat.le_0_l.
+  - apply Nat.le_0_l.
+  - lia.
+  - specialize (IH i). lia.
+Qed.
+
+Lemma binom2_R : forall a, IZR (binom a 2) = INR a * (INR a - 1) / 2.
+Proof.
+  intros a. pose proof (binom_2_r a) as H.
+  apply (f_equal IZR) in H. rewrite !mult_IZR, minus_IZR, <- !INR_IZR_INZ in H.
+  simpl in H. lra.
+Qed.
+
+Definition kterm (blocks : list nat) (i j : nat) : R :=
+  if Nat.eqb i j then INR (nth i blocks 0%nat) * (INR (nth i blocks 0%nat) - 1) / 2
+  else if Nat.ltb j i then INR (nth j blocks 0%nat) * INR (nth i blocks 0%nat)
+  else 0.
+
+Lemma kcell_sum :
+  forall blocks k i j,
+    wf_blocks blocks -> (2 <= k)%nat -> (i < length blocks)%nat -> (j < length blocks)%nat ->
+    Rsum (map snd (filter (fun o => Nat.eqb (sum_nat (fst o) + k) (sum_nat blocks + 1))
+                          (kcell blocks i j)))
+    = kterm blocks i j * (if Nat.eqb k 2 then 1 else 0).
+Proof.
+  intros blocks k i j Hwf Hk Hi Hj.
+  change (dotw 0 blocks <= length blocks)%nat in Hwf.
+  unfold kcell, kterm.
+  destruct (Nat.eqb i j) eqn:Eij; bools.
+  - subst j. pose proof (dotw_ge1 blocks i 0 Hi) as Hd.
+    pose proof (nth_le_sum blocks i) as Hs.
+    destruct (Nat.ltb 1 (nth i blocks 0%nat)) eqn:Ea; bools.
+    + cbn [filter fst snd].
+      rewrite sum_upd_S by (rewrite upd_length; nia).
+      pose proof (sum_upd blocks i (fun x => (x - 2)%nat) Hi) as Hu. cbv beta in Hu.
+      change (kingman_rate_bc OpsR [nth i blocks 0%nat] [2%nat])
+        with (kingman_rate OpsR (nth i blocks 0%nat) 2).
+      rewrite kingman_rate_2, binom2_R.
+      destruct (Nat.eqb (S (sum_nat (upd blocks i (fun x => (x - 2)%nat))) + k) (sum_nat blocks + 1)) eqn:E2;
+        destruct (Nat.eqb k 2) eqn:E3; bools; try lia; simpl; lra.
+    + simpl.
+      assert (Hc : nth i blocks 0%nat = 0%nat \/ nth i blocks 0%nat = 1%nat) by lia.
+      destruct Hc as [-> | ->]; simpl; lra.
+  - destruct (Nat.ltb j i) eqn:Eji; bools; [|simpl; lra].
+    pose proof (dotw_ge2 blocks i j 0 Eji Hi) as Hd.
+    destruct (Nat.ltb 0 (nth i blocks 0%nat)) eqn:Eai; bools.
+    + destruct (Nat.ltb 0 (nth j blocks 0%nat)) eqn:Eaj; bools.
+      * cbn [andb filter fst snd].
+        rewrite sum_upd_S by (rewrite !upd_length; nia).
+        pose proof (sum_upd blocks i pred Hi) as Hu1.
+        assert (Hj' : (j < length (upd blocks i pred))%nat) by (rewrite upd_length; assumption).
+        pose proof (sum_upd (upd blocks i pred) j pred Hj') as Hu2.
+        rewrite nth_upd_neq in Hu2 by lia.
+        change (kingman_rate_bc OpsR [nth i blocks 0%nat; nth j blocks 0%nat] [1%nat; 1%nat])
+          with (IZR (Z.of_nat (nth i blocks 0%nat * nth j blocks 0%nat))).
+        rewrite <- INR_IZR_INZ, mult_INR.
+        destruct (Nat.eqb (S (sum_nat (upd (upd blocks i pred) j pred)) + k) (sum_nat blocks + 1)) eqn:E2;
+          destruct (Nat.eqb k 2) eqn:E3; bools; try lia; simpl; lra.
+      * cbn [andb]. replace (nth j blocks 0%nat) with 0%nat by lia. simpl. lra.
+    + cbn [andb]. replace (nth i blocks 0%nat) with 0%nat by lia. simpl. lra.
+Qed.
+
+Lemma Rsum_seq_S :
+  forall (g : nat -> R) n, Rsum (map g (seq 0 (S n))) = Rsum (map g (seq 0 n)) + g n.
+Proof.
+  intros g n. rewrite seq_S, map_app, Rsum_app. simpl. ring.
+Qed.
+
+Lemma Rsum_inner :
+  forall (d : R) (h : nat -> R) i m, (i < m)%nat ->
+    Rsum (map (fun j => if Nat.eqb i j then d else if Nat.ltb j i then h j else 0) (seq 0 m))
+    = d + Rsum (map h (seq 0 i)).
+Proof.
+  intros d h i m. induction m as [|m IH]; intros H; [lia|].
+  rewrite Rsum_seq_S.
+  destruct (Nat.eqb i m) eqn:E; bools.
+  - subst m.
+    rewrite (map_ext_in _ h).
+    2:{ intros j Hj. apply in_seq in Hj.
+        destruct (Nat.eqb i j) eqn:E1; destruct (Nat.ltb j i) eqn:E2; bools; try lia. reflexivity. }
+    ring.
+  - rewrite IH by lia.
+    destruct (Nat.ltb m i) eqn:E2; bools; try lia. ring.
+Qed.
+
+Lemma Rsum_pairs :
+  forall (f : nat -> R) n,
+    Rsum (map (fun i => f i * (f i - 1) / 2 + Rsum (map f (seq 0 i)) * f i) (seq 0 n))
+    = Rsum (map f (seq 0 n)) * (Rsum (map f (seq 0 n)) - 1) / 2.
+Proof.
+  intros f n. induction n as [|n IH].
+  - simpl. lra.
+  - rewrite !Rsum_seq_S, IH. field.
+Qed.
+
+Lemma INR_sum_nat :
+  forall blocks,
+    INR (sum_nat blocks) = Rsum (map (fun i => INR (nth i blocks 0%nat)) (seq 0 (length blocks))).
+Proof.
+  induction blocks as [|a l IH].
+  - reflexivity.
+  - rewrite sum_nat_cons, plus_INR, IH.
+    simpl length. rewrite <- cons_seq, <- seq_shift.
+    rewrite map_cons, map_map. reflexivity.
+Qed.
+
+Theorem block_outcomes_sum_kingman :
+  forall (blocks : list nat) (k : nat),
+    wf_blocks blocks -> (2 <= length blocks)%nat -> (2 <= k)%nat ->
+    outcome_rate_sum Kingman blocks k = get_rate_bk OpsR Kingman (sum_nat blocks) k.
+Proof.
+  intros blocks k Hwf Hlen Hk. unfold outcome_rate_sum.
+  rewrite coalesce_kingman by assumption.
+  rewrite kingman_coalesce_bc_cells.
+  set (P := fun o : list nat * R => Nat.eqb (sum_nat (fst o) + k) (sum_nat blocks + 1)).
+  fold (Rsum (map snd (filter P
+     (flat_map (fun i => flat_map (fun j => kcell blocks i j) (seq 0 (length blocks)))
+               (seq 0 (length blocks)))))).
+  rewrite Rsum_flat_map_filter.
+  set (f := fun i => INR (nth i blocks 0%nat)).
+  rewrite (map_ext_in _
+    (fun i => (f i * (f i - 1) / 2 + Rsum (map f (seq 0 i)) * f i)
+              * (if Nat.eqb k 2 then 1 else 0))).
+  2:{ intros i Hi. apply in_seq in Hi.
+      rewrite Rsum_flat_map_filter.
+      rewrite (map_ext_in _ (fun j => kterm blocks i j * (if Nat.eqb k 2 then 1 else 0))).
+      2:{ intros j Hj. apply in_seq in Hj. unfold P. apply kcell_sum; (assumption || lia). }
+      rewrite Rsum_map_mult. f_equal. unfold kterm.
+      rewrite (Rsum_inner (INR (nth i blocks 0%nat) * (INR (nth i blocks 0%nat) - 1) / 2)
+                          (fun j => INR (nth j blocks 0%nat) * INR (nth i blocks 0%nat))) by lia.
+      rewrite (Rsum_map_mult (INR (nth i blocks 0%nat)) (fun j => INR (nth j blocks 0%nat))).
+      reflexivity. }
+  rewrite Rsum_map_mult, Rsum_pairs.
+  unfold f. rewrite <- INR_sum_nat.
+  unfold get_rate_bk.
+  destruct (Nat.eqb k 2) eqn:E; bools.
+  - subst k. rewrite kingman_rate_2, binom2_R. ring.
+  - rewrite kingman_rate_not2 by assumption. ring.
+Qed.
+
+(* ------------------------------------------------------------------ *)
+(* all three models                                                   *)
+(* ------------------------------------------------------------------ *)
+
+Theorem block_outcomes_sum :
+  forall (m : cmodel (T:=R)) (blocks : list nat) (k : nat),
+    wf_blocks blocks ->
+    (2 <= length blocks)%nat -> (2 <= k)%nat ->
+    outcome_rate_sum m blocks k = get_rate_bk OpsR m (sum_nat blocks) k.
+Proof.
+  intros [|a s|psi c s] blocks k Hwf Hlen Hk.
+  - apply block_outcomes_sum_kingman; assumption.
+  - apply block_outcomes_sum_beta; assumption.
+  - apply block_outcomes_sum_dirac; assumption.
+Qed.
+
+Print Assumptions vandermonde2.
+Print Assumptions vandermonde_general.
+Print Assumptions vandermonde_general_R.
+Print Assumptions block_outcomes_sum_beta.
+Print Assumptions block_outcomes_sum_dirac.
+Print Assumptions block_outcomes_sum_kingman.
+Print Assumptions block_outcomes_sum.
